@@ -89,3 +89,13 @@ Example C11_E2_stop_while_feeding :
   let s := wrun LidarDriverImpl_processPacket_round winit acts in
   w_returned s = true /\ w_rounds s = 3 /\ w_rounds_after s = 1.
 Proof. vm_compute. repeat split; reflexivity. Qed.
+
+(* T8: numbering across restarts, on the current source (splitFrame() regenerated and interpreted, Proofs/Handover.v): a frame boundary
+   that falls on an empty open frame - stop() empties the open frame, so the first boundary after a restart can - delivers nothing, asks
+   the caller for nothing and uses up no sequence number: the next delivered cloud carries the number that follows the last delivered one *)
+From RS Require Import Model.Driver Proofs.Handover.
+Theorem C11_T8_empty_frame_keeps_numbering v th now ts : v_open v = [] ->
+  exists s, run sst (s_atom now ts) s_cond 8 LidarDriverImpl_splitFrame_effects (mk_sst v th [] None None) = Go s /\
+            s_v s = v /\ s_th s = th /\ s_out s = [].
+Proof. exact (splitFrame_code_empty_frame v th now ts). Qed.
+Print Assumptions C11_T8_empty_frame_keeps_numbering.
